@@ -18,7 +18,7 @@ RULE = ("(A) Hypothesis: environment states reached by a drawn reveal prefix (n=
         "identical before/after next_step; action valid; greedy = lowest index among actions whose own-computed immediate reward "
         "(fresh object, reveal, compute, gap) is maximal; greedy_worst minimal; largest = lowest index among unknown coalitions of "
         "maximal size; random valid and reproducible for equal seed and state. (B) get_greedy_rewards over a cyclic list of sampled "
-        "games, step limits, process counts {1,2,4}, rng None/seeded: chosen coalitions pairwise distinct; the t-th one attains the "
+        "games, step limits 0..5 (the whole horizon at n=3), process counts {1,2,4}, rng None/seeded: chosen coalitions pairwise distinct; the t-th one attains the "
         "minimal mean gap among all one-coalition extensions of the prefix (own computation); row t equals own-computed gaps; mean "
         "curve non-increasing, >= exhaustive optimum (get_best_exploitability) and equal to it for 0 and 1 reveals; identical for "
         "all process counts. Non-trivial: a state with >= 2 valid actions whose rewards differ (for 'largest': unknown coalitions of "
